@@ -12,7 +12,7 @@ func canonicalName(v ssa.Value) string {
 	switch x := v.(type) {
 	case *ssa.Parameter:
 		fn := x.Parent()
-		if e, ok := frozenNames[strings.ReplaceAll(fn.String(), Mod+"/", "")]; ok {
+		if e, ok := frozenNames[strings.ReplaceAll(fn.String(), Mod+"/", "")]; ok && len(e[0]) == len(fn.Params) {
 			for i, p := range fn.Params {
 				if p == x && i < len(e[0]) {
 					return e[0][i]
@@ -21,11 +21,20 @@ func canonicalName(v ssa.Value) string {
 		}
 		return x.Name()
 	case *ssa.FreeVar:
+		// the capture list of a closure changes with its body: positions are only meaningful when the list is the
+		// pinned one up to renaming
 		fn := x.Parent()
 		if e, ok := frozenNames[strings.ReplaceAll(fn.String(), Mod+"/", "")]; ok {
-			for i, p := range fn.FreeVars {
-				if p == x && i < len(e[1]) {
-					return e[1][i]
+			for _, n := range e[1] {
+				if n == x.Name() {
+					return x.Name()
+				}
+			}
+			if len(e[1]) == len(fn.FreeVars) {
+				for i, p := range fn.FreeVars {
+					if p == x {
+						return e[1][i]
+					}
 				}
 			}
 		}
